@@ -4,7 +4,7 @@
     [Print Assumptions].  The model is the code after fixes/F3, F4, F15, F21. *)
 From Coq Require Import ZArith List Bool String.
 From Verif Require Import AdmitTotal.Base AdmitTotal.Model AdmitTotal.Theorems AdmitTotal.Sites Gen.PanicSites.
-From Verif Require Import AdmitTotal.State AdmitTotal.ProofsState1 AdmitTotal.ProofsState2 AdmitTotal.ProofsState4 AdmitTotal.ProofsState5 AdmitTotal.TheoremsState.
+From Verif Require Import AdmitTotal.State AdmitTotal.ProofsState1 AdmitTotal.ProofsState2 AdmitTotal.ProofsState4 AdmitTotal.ProofsState5 AdmitTotal.TheoremsState AdmitTotal.ProofsKeys2 AdmitTotal.TheoremsKeys.
 Import ListNotations.
 
 (** types.Tx.Validate (mempool.verifyTx, and the first step of chain.executeTx) terminates with
@@ -64,7 +64,9 @@ Print Assumptions C14_enterprise_state_wf_preserved.
 (** The storage invariant [Inv] (every stored staking, proposal-vote, vote-result-list and
     name-map record is an output of its serialiser with short components; enterprise confs well
     formed) is preserved by every executed governance transaction and by block boundaries.
-    [step] requires the records written to be shorter than 2^32 bytes ([upd_small]). *)
+    [step] requires the records written to be shorter than 2^32 bytes ([upd_small]) and the amounts
+    written to be short ([upd_bounded]: staking records < 47 bytes, BP tally entries < 78 bytes;
+    amounts are bounded by the total supply 5*10^26 aer < 2^89). *)
 Theorem C14_storage_invariant_preserved :
   forall to_upper decode_address encode_address b58 parse_big allowed_name list_entry_ok rpc_parts rpc_b64_ok
          rpc_has_w cc_peer_ok cc_addr_ok cc_hex_ok b58dec jmarshal junmarshal,
@@ -98,7 +100,7 @@ Print Assumptions C14_reachable_validate_total.
     whole execution of a system transaction including cmd.run (vote tally load, SubVote, AddVote,
     Sync, refreshAllVote, record writes) can panic at one site only: the nil *big.Int that
     [voteResult.rmap[v]] yields in SubVote when a recorded vote names a candidate absent from the
-    stored tally (the one assumption that remains; the engine runs the real code there). *)
+    stored tally.  (C14_reachable_executes_full below removes this last site with the key invariant.) *)
 Theorem C14_reachable_executes :
   forall to_upper decode_address encode_address b58 parse_big allowed_name list_entry_ok rpc_parts rpc_b64_ok
          rpc_has_w cc_peer_ok cc_addr_ok cc_hex_ok b58dec jmarshal junmarshal,
@@ -115,6 +117,28 @@ Theorem C14_reachable_executes :
                e t g acct se = Panic p -> p = rmap_site).
 Proof. exact reachable_executes. Qed.
 Print Assumptions C14_reachable_executes.
+
+(** Full statement: on every state reachable from genesis the whole execution of a system
+    transaction -- validation, argument handling and cmd.run with the vote tally update -- never
+    panics.  Uses the key invariant (every candidate a recorded vote names is a key of the stored
+    tally of its issue; BP tally keys are 39 bytes, amounts short), proved to be preserved by every
+    step.  Hypotheses: encoding/json round trip of a one-element string list, DecodeAddress results
+    are short, base58.Decode returns as many bytes as the validator measured; the genesis BP list
+    is the serialisation of a tally with 39-byte keys. *)
+Theorem C14_reachable_executes_full :
+  forall to_upper decode_address encode_address b58 parse_big allowed_name list_entry_ok rpc_parts rpc_b64_ok
+         rpc_has_w cc_peer_ok cc_addr_ok cc_hex_ok b58dec jmarshal junmarshal,
+  (forall c, junmarshal (jmarshal [JStr c]) = Some [c]) ->
+  (forall x a, decode_address x = Some a -> small a) ->
+  (forall x n ok, b58 x = Some (n, ok) -> List.length (b58dec x) = n) ->
+  forall t0 ent0 g acct se e t p,
+  tally_ok false t0 -> small (store_result false t0) -> ent_wf rpc_parts ent0 = true ->
+  reachable to_upper decode_address encode_address b58 parse_big allowed_name list_entry_ok rpc_parts rpc_b64_ok
+            rpc_has_w cc_peer_ok cc_addr_ok cc_hex_ok b58dec jmarshal junmarshal (genesis (store_result false t0) ent0) g ->
+  exec_system_full to_upper decode_address encode_address b58 parse_big allowed_name list_entry_ok
+    rpc_parts rpc_b64_ok rpc_has_w cc_peer_ok cc_addr_ok cc_hex_ok b58dec jmarshal junmarshal e t g acct se <> Panic p.
+Proof. exact reachable_executes_full. Qed.
+Print Assumptions C14_reachable_executes_full.
 
 (** Every index / slice / single-value assertion / explicit panic found by gen_panicsites in the
     current source tree is one the model accounts for (Sites.model_sites). *)
